@@ -26,33 +26,46 @@ def evalLine (input observed : String) : Option String :=
   | "hx" :: _ => evalConfig ws
   | _ => evalPure ws
 
-partial def loop (h : IO.FS.Stream) (n d bad : Nat) (lineNo : Nat) : IO (Nat × Nat × Nat) := do
+def bump (m : List (String × Nat)) (k : String) : List (String × Nat) :=
+  match m with
+  | [] => [(k, 1)]
+  | (k', n) :: rest => if k' == k then (k', n + 1) :: rest else (k', n) :: bump rest k
+
+partial def loop (h : IO.FS.Stream) (cover : IO.Ref (List (String × Nat))) (n d bad : Nat) (lineNo : Nat) : IO (Nat × Nat × Nat) := do
   let line ← h.getLine
   if line.isEmpty then return (n, d, bad)
   let line := line.trimAscii.toString
-  if line.isEmpty || line.startsWith "#" then loop h n d bad (lineNo + 1)
+  if line.isEmpty || line.startsWith "#" then loop h cover n d bad (lineNo + 1)
   else
     match splitArrow line with
     | none =>
       IO.println s!"BADLINE {lineNo}: {line}"
-      loop h n d (bad + 1) (lineNo + 1)
+      loop h cover n d (bad + 1) (lineNo + 1)
     | some (input, observed) =>
       match evalLine input observed with
       | none =>
         IO.println s!"BADLINE {lineNo}: {line}"
-        loop h n d (bad + 1) (lineNo + 1)
+        loop h cover n d (bad + 1) (lineNo + 1)
       | some model =>
-        if model == observed then loop h (n + 1) d bad (lineNo + 1)
+        if model == observed then
+          -- model-branch coverage of accepted system traces
+          if input.startsWith "sy " then
+            match evalSystemFull (words input) observed with
+            | some (_, tags) => cover.modify fun m => tags.foldl bump m
+            | none => pure ()
+          loop h cover (n + 1) d bad (lineNo + 1)
         else
           IO.println s!"DIVERGE {lineNo}: {input} impl=[{observed}] model=[{model}]"
-          loop h (n + 1) (d + 1) bad (lineNo + 1)
+          loop h cover (n + 1) (d + 1) bad (lineNo + 1)
 
 def main (args : List String) : IO UInt32 := do
   match args with
   | [path] =>
     let hdl ← IO.FS.Handle.mk path .read
-    let (n, d, bad) ← loop (IO.FS.Stream.ofHandle hdl) 0 0 0 1
+    let cover ← IO.mkRef ([] : List (String × Nat))
+    let (n, d, bad) ← loop (IO.FS.Stream.ofHandle hdl) cover 0 0 0 1
     IO.println s!"SUMMARY cases={n} diverged={d} badlines={bad}"
+    for (k, c) in (← cover.get) do IO.println s!"COVER {k} {c}"
     return (if bad > 0 then 2 else 0)
   | _ =>
     IO.eprintln "usage: driver <file>"
